@@ -33,7 +33,6 @@ StateDiff(e, o) ==
   \cup FieldDiff(<<"bcn">>, e.bcn, o.bcn, {"p", "next"}) \cup ChDiff("bcn", e, o)
   \cup FieldDiff(<<"str">>, e.str, o.str, {"p", "s"})
   \cup (IF e.vest # o.vest THEN {<<"vest">>} ELSE {})
-  \cup (IF e.halted # o.halted THEN {<<"halted">>} ELSE {})
   \cup (IF e.time # o.time THEN {<<"time">>} ELSE {})
 
 OutDiff(eo, oo) ==
@@ -75,7 +74,6 @@ StateMonitors(o) ==
   \cup (IF ~QueuesMatchStatus(o) THEN {<<"C03", "QueuesMatchStatus">>} ELSE {})
   \cup (IF ~OncePerSigner(o) THEN {<<"C03", "OncePerSigner">>} ELSE {})
   \cup (IF ~IdsSequential(o) THEN {<<"C03", "IdsSequential">>} ELSE {})
-  \cup (IF o.halted THEN {<<"C14", "Halted">>} ELSE {})
   \cup (IF ~EscrowBacked(o) THEN {<<"C10", "EscrowBacked">>} ELSE {})
   \cup (IF ~o.str.inv THEN {<<"C10", "ModuleInvariant">>} ELSE {})
   \cup (IF ~Sustained(o) THEN {<<"C11", "Sustained">>} ELSE {})
@@ -166,6 +164,8 @@ Judge(i) ==
                 \cup (IF ev.res.ok /\ ~ev.res.invOk THEN {<<i, "L1", "C15", "InvariantBrokenAfterImport">>} ELSE {})
                 \cup (IF ev.res.ok /\ ~ev.res.idempotent THEN {<<i, "L1", "C15", "SecondExportDiffers">>} ELSE {})
            ELSE {})
+     \cup (IF "qpanic" \in DOMAIN ev.post
+           THEN {<<i, "L1", "C17", IF EntDenomChanged(ev.post) THEN "SupplyQueryPanicsAfterEnterpriseDenomChange" ELSE "SupplyQueryPanics">>} ELSE {})
      \cup (IF ev.a = "ListQueries" THEN { <<i, "L1", "C20", d>> : d \in ListFindings(ev.post, ev.res.lists) } ELSE {})
      \cup (IF "postOrig" \in DOMAIN ev /\ ev.a # "ExportImport" /\ ~Bisimilar(ev.post, ev.postOrig)
            THEN {<<i, "L1", "C15", "ReimportedChainDiverges">>} ELSE {})
@@ -201,6 +201,12 @@ Explain(i) ==
                 PrintT(<<"EXPLAIN", ToJson([line |-> i, path |-> d, expected |-> GetPath(exp.st, d), observed |-> GetPath(ev.post, d)])>>)
   ELSE TRUE
 
+\* a step in which a begin/end blocker or commit panicked leaves no meaningful state: only the halt itself is reported
+JudgeOrHalt(i) ==
+  IF Trace[i].post.halted
+  THEN {<<i, "L1", "C14", IF EntDenomChanged(Trace[i - 1].post) THEN "HaltedAfterEnterpriseDenomChange" ELSE "Halted">>}
+  ELSE Judge(i)
+
 TraceInit == l = 1 /\ aux = InitAux /\ bad = {} /\ snap = [line |-> 1, aux |-> InitAux]
 
 TraceNext ==
@@ -215,7 +221,7 @@ TraceNext ==
                     ELSE IF Trace[l].a = "ExportImport" THEN aux
                     ELSE Step(Trace[l - 1].post @@ [aux |-> aux], Trace[l].args).st.aux
           /\ snap' = IF Trace[l].a = "Commit" THEN [line |-> l, aux |-> aux'] ELSE snap
-          /\ bad' = bad \cup Judge(l)
+          /\ bad' = bad \cup JudgeOrHalt(l)
 
 TraceSpec == TraceInit /\ [][TraceNext]_vars
 
